@@ -289,7 +289,7 @@ def pick(seq, n):
     return [seq[(i * (len(seq) - 1)) // (n - 1)] for i in range(n)]
 
 
-def finish(mod, tier, seed, acc, desc, t0, replay_fn=None, extra_cov=None):
+def finish(mod, tier, seed, acc, desc, t0, replay_fn=None, extra_cov=None, sequence_fn=None):
     """Write evidence, replays, print verdict lines; return process exit code."""
     prop = mod.PROPERTY
     known = load_known(prop)
@@ -313,15 +313,23 @@ def finish(mod, tier, seed, acc, desc, t0, replay_fn=None, extra_cov=None):
                 # replayable artefact is the task (a sequence of cases), otherwise the checker is at fault.
                 seq = first.get('_task')
                 again = replay_fn(seq) if seq else None
+                if (again is None or sig not in again.violations) and seq and sequence_fn is not None:
+                    # last resort: the exact sequence of tasks the worker process had executed up to this one, in a
+                    # fresh process (the run is deterministic: static partition, fixed order)
+                    again = sequence_fn(seq)
+                    if again is not None and sig in again.violations:
+                        first = dict(first, case=dict(seq, worker_sequence=True, then=first['case']),
+                                     note=(first.get('note') or '') + ' [fails only after the tasks the same worker '
+                                     'process ran before: state survives in the library between unrelated calls]')
                 if again is None or sig not in again.violations:
-                    # depends on state left by other tasks of the same worker: cannot be replayed in isolation.
-                    # It is listed, but only reproducible violations decide the verdict.
+                    # cannot be replayed at all: listed, but only reproducible violations decide the verdict
                     unreproduced.append((sig, n, first))
                     lines.append('NOT-REPRODUCED sig=%s cases=%d observed=%s (failed during the run, passes when '
                                  're-executed alone and with its task)' % (sig, n, first['observed']))
                     continue
-                first = dict(first, case=dict(seq, then=first['case']),
-                             note=(first.get('note') or '') + ' [fails only after the earlier cases of this task]')
+                if again is not None and sig in again.violations:
+                    first = dict(first, case=dict(seq, then=first['case']),
+                                 note=(first.get('note') or '') + ' [fails only after the earlier cases of this task]')
         digest = hashlib.sha1((prop + sig + json.dumps(first['case'], sort_keys=True)).encode()).hexdigest()[:12]
         path = os.path.join(VERIF, 'replays', '%s-%s.json' % (prop, digest))
         with open(path, 'w') as f:
